@@ -104,7 +104,8 @@ def tlc(module, cfg, tag, env=None, workers=8, timeout=1800, extra_args=(), java
     """Run TLC on spec/<module>.tla with config file `cfg`; metadir under work/<tag>."""
     md = os.path.join(WORK, tag, "md")
     os.makedirs(md, exist_ok=True)
-    cmd = ["tlc", "-workers", str(workers), "-metadir", md, "-cleanup", "-noGenerateSpecTE",
+    # (-checkpoint 0: the depth-first queue used for trace validation cannot checkpoint; TLC would throw after 30 min)
+    cmd = ["tlc", "-workers", str(workers), "-metadir", md, "-cleanup", "-noGenerateSpecTE", "-checkpoint", "0",
            "-config", cfg] + list(extra_args) + [os.path.join(SPEC, module + ".tla")]
     e = {}
     if java_opts:
